@@ -43,12 +43,30 @@
                                                  and binaries)
   the formats agree with each other              C14_cross_format, C14_cross_format_json
   message round trip through each format         C14_wire_roundtrip
+  JSON strings must be valid UTF-8 (audit c1)    Json.okB now demands it; C14_json_roundtrip_real,
+                                                 C14_wire_roundtrip_json_real
+                                                 (the codec's real bytes, `Json.encReal`),
+                                                 C14_json_roundtrip_anystring /
+                                                 C14_json_roundtrip_nonutf8_fails ("a\x80b" comes
+                                                 back as "a\uFFFDb"), C14_json_string_roundtrip_iff
+                                                 (what comes back in general; exactly the valid
+                                                 UTF-8 strings survive), C14_nonutf8_formats_disagree,
+                                                 C14_wire_nonutf8_witness
+  compatible field types, closed form (audit b)  C14_compatible_cases, C14_compatible_table,
+                                                 C14_rejects_closed
+  when Deserialize answers at all (audit d8)     C14_deserialize_ok_iff, C14_deserialize_msg_iff,
+                                                 C14_deserialize_error_iff
+  the head is literally a known code (audit a6)  C14_accept_known_code
+  further leniencies (audit a5)                  C14_rejects_long / C14_rejects_long_fails,
+                                                 C14_extra_items_ignored(_msg), C14_nil_for_id_accepted
 
   Not proved, sampled by the family: that ugorji/go/codec implements these formats (encoder
   bytes, decoder verdicts), float <-> decimal text in JSON, Go's reflect conversions.
 -/
 import Nexus.Codec.MsgLemmas
 import Nexus.Codec.WireLemmas
+import Nexus.Codec.WpDJsonReal
+import Nexus.Codec.WpDRange
 
 namespace Nexus.C14
 
@@ -657,6 +675,189 @@ theorem C14_rejects_short_fails : ¬ C14_rejects_short := by
     simp [hr] at hacc
     simp [hacc.2] at this
 
+/-! ## Compatible field types in closed form (audit C14-b / d6) -/
+
+/-- The (field kind × decoded value) pairs `listToMsg` lets through, read off
+    /repo/transport/serialize/serializer.go without going through the model's `convertTo`:
+    * nil item: `continue`, whatever the field (serializer.go:69-71);
+    * `wamp.ID` (uint64) and `wamp.MessageType` (int): `uint64`/`int64` and `float64` are
+      `ConvertibleTo` them, nothing else is (serializer.go:85-88; bool, string, []byte, []any and
+      maps are neither convertible to an integer type nor of the same Kind, :91-94);
+    * `string` / `wamp.URI`: a Go `string` only — integers and `[]byte` are `ConvertibleTo` string
+      but the guard `f.Kind() != reflect.String || arg.Kind() == reflect.String` (:85-86) refuses
+      them and their Kind differs (:91-94);
+    * `wamp.Dict`: `map[string]any` is `AssignableTo` it (:78-81), every other value has another
+      Kind (:91-94);
+    * `wamp.List`: `[]any` is `AssignableTo` it (:78-81); `[]byte` is neither assignable nor
+      convertible but has Kind Slice, and `assignSlice` copies it element-wise (:103-107, :163-174,
+      `uint8` is assignable to `any`); everything else has another Kind. -/
+def CompatibleTable : GoKind → CVal → Bool
+  | _, .null => true
+  | .uint64, .int _ => true
+  | .uint64, .float _ => true
+  | .int, .int _ => true
+  | .int, .float _ => true
+  | .string, .str _ => true
+  | .mapStringAny, .dict _ => true
+  | .sliceAny, .list _ => true
+  | .sliceAny, .bin _ => true
+  | _, _ => false
+
+/-- `Compatible` — defined through the model's conversion function — is that table.  (Depends on
+    the regenerated fact `Gen.convertGuard = .stringFromStringOnly`.) -/
+theorem C14_compatible_table (k : GoKind) (v : CVal) : Compatible k v = CompatibleTable k v := by
+  cases k <;> cases v <;> rfl
+
+/-- **Closed form of "compatible field types", as coded** (audit b: `C14_rejects` spoke of
+    `Compatible`, which is defined through `convertTo`; this says what it is).  An item is let
+    through for a field exactly when it is nil; or the field is an id (`wamp.ID`) or an int
+    (`wamp.MessageType`) and the item an integer or a float; or the field is a string/URI and the
+    item a string; or the field is a Dict and the item a dict; or the field is a List and the item a
+    list or a binary.  Rows checked against serializer.go:67-113, see `CompatibleTable`. -/
+theorem C14_compatible_cases (k : GoKind) (v : CVal) :
+    Compatible k v = true ↔
+      v = .null
+      ∨ ((k = .uint64 ∨ k = .int) ∧ ((∃ i, v = .int i) ∨ ∃ b, v = .float b))
+      ∨ (k = .string ∧ ∃ s, v = .str s)
+      ∨ (k = .mapStringAny ∧ ∃ d, v = .dict d)
+      ∨ (k = .sliceAny ∧ ((∃ l, v = .list l) ∨ ∃ b, v = .bin b)) := by
+  rw [C14_compatible_table]
+  cases k <;> cases v <;> simp [CompatibleTable]
+
+def CompatibleTableAll : List FieldSchema → List CVal → Bool
+  | f :: fs, it :: its => CompatibleTable f.kind it && CompatibleTableAll fs its
+  | _, _ => true     -- items beyond the last field are ignored; missing items leave fields untouched
+
+private theorem compatibleAll_table : ∀ (fs : List FieldSchema) (its : List CVal),
+    CompatibleAll fs its = CompatibleTableAll fs its
+  | [], _ => by simp [CompatibleAll, CompatibleTableAll]
+  | _ :: _, [] => by simp [CompatibleAll, CompatibleTableAll]
+  | f :: fs, it :: its => by
+      simp [CompatibleAll, CompatibleTableAll, C14_compatible_table, compatibleAll_table fs its]
+
+/-- **Rejects, in closed form**: `C14_rejects` with the table in place of the model's conversion.
+    `Deserialize` (after the codec) yields a message exactly when the list is non-empty, the head
+    passes the format's integer check, `NewMessage` handles the code and every item facing a field
+    is in `CompatibleTable` for that field's kind. -/
+theorem C14_rejects_closed (fmt : Format) (v : List CVal) :
+    (fromList fmt v).isOk =
+      (match v with
+       | [] => false
+       | v0 :: items =>
+         match headType fmt v0 with
+         | .ok t => match newMessage t with
+           | some m0 => CompatibleTableAll m0.schema.fields items
+           | none => false
+         | _ => false) := by
+  rw [C14_rejects]
+  cases v with
+  | nil => rfl
+  | cons v0 items =>
+    simp only []
+    cases headType fmt v0 with
+    | ok t =>
+      simp only []
+      cases newMessage t with
+      | none => rfl
+      | some m0 => exact compatibleAll_table _ _
+    | error e => rfl
+    | panic s => rfl
+
+/-! ## Further leniencies (audit C14-a5) -/
+
+/-- Full-strength statement about length, upper side: a message comes out only of a list that has
+    no more items than the message has fields. -/
+def C14_rejects_long : Prop :=
+  ∀ (fmt : Format) (v0 : CVal) (items : List CVal) (m : Msg),
+    fromList fmt (v0 :: items) = .ok m → items.length ≤ m.schema.fields.length
+
+/-- False of the code as written: the loop of `listToMsg` stops at `val.NumField()`
+    (serializer.go:67), so `[33, 1, 2, "x", {}]` is a SUBSCRIBED; the two extra items are never
+    looked at.  Replayed on the implementation (`[33,1,2,"extra",{"x":1}]` → Subscribed{1, 2}). -/
+theorem C14_rejects_long_fails : ¬ C14_rejects_long := by
+  intro h
+  have hacc : (match fromList .json [.int 33, .int 1, .int 2, .str [0x78], .dict []] with
+      | .ok m => m.schema.name == "Subscribed" && m.schema.fields.length == 2
+      | _ => false) = true := by decide +kernel
+  cases hr : fromList .json [.int 33, .int 1, .int 2, .str [0x78], .dict []] with
+  | error e => simp [hr] at hacc
+  | panic s => simp [hr] at hacc
+  | ok m =>
+    have := h _ _ _ m hr
+    simp [hr] at hacc
+    simp [hacc.2] at this
+
+/-- In general: items beyond the last field never matter. -/
+theorem C14_extra_items_ignored (fs : List FieldSchema) (its extra : List CVal) (h : fs.length ≤ its.length) :
+    CompatibleAll fs (its ++ extra) = CompatibleAll fs its := by
+  induction fs generalizing its with
+  | nil => cases its <;> cases extra <;> simp [CompatibleAll]
+  | cons f fs ih =>
+    cases its with
+    | nil => simp at h
+    | cons it its => simp [CompatibleAll, ih its (by simpa using h)]
+
+private theorem fill_extra : ∀ (fs : List FieldSchema) (zs its extra : List CVal) (i : Nat),
+    fs.length ≤ its.length → fill i fs zs (its ++ extra) = fill i fs zs its
+  | [], _, _, _, _, _ => by simp [fill]
+  | _ :: _, [], _, _, _, _ => by simp [fill]
+  | _ :: _, _ :: _, [], _, _, h => by simp at h
+  | f :: fs, z :: zs, it :: its, extra, i, h => by
+      have ih := fill_extra fs zs its extra (i + 1) (by simpa using h)
+      simp only [List.cons_append, fill, ih]
+
+private theorem structs_fields_le : ∀ s ∈ Gen.structs, s.fields.length ≤ 6 := by decide
+
+/-- The same for the whole of `Deserialize` after the codec: no message has more than six fields,
+    so whatever follows the sixth item after the code is never looked at — the outcome (message,
+    error) is the same with and without it. -/
+theorem C14_extra_items_ignored_msg (fmt : Format) (v0 : CVal) (its extra : List CVal) (h : 6 ≤ its.length) :
+    fromList fmt (v0 :: (its ++ extra)) = fromList fmt (v0 :: its) := by
+  simp only [fromList]
+  cases hh : headType fmt v0 with
+  | error e => rfl
+  | panic s => rfl
+  | ok t =>
+    simp only [listToMsg]
+    cases hn : newMessage t with
+    | none => rfl
+    | some m0 =>
+      simp only [List.tail_cons]
+      have hmem : m0.schema ∈ Gen.structs := by
+        rw [newMessage_eq] at hn
+        cases hc : newCase? t with
+        | none => simp [hc] at hn
+        | some c =>
+          cases hs : structOf? c with
+          | none => simp [hc, hs] at hn
+          | some s =>
+            simp [hc, hs] at hn
+            subst hn
+            exact List.mem_of_find?_eq_some hs
+      rw [fill_extra _ _ _ _ _ (Nat.le_trans (structs_fields_le _ hmem) h)]
+
+/-- `C14_extra_items_ignored_msg` applies to an EVENT list with all six items present plus two
+    more. -/
+example : fromList .json (.int 36 :: ([.int 1, .int 2, .dict [], .list [], .dict [], .null] ++ [.int 9, .int 9]))
+    = fromList .json (.int 36 :: [.int 1, .int 2, .dict [], .list [], .dict [], .null]) :=
+  C14_extra_items_ignored_msg .json (.int 36) [.int 1, .int 2, .dict [], .list [], .dict [], .null]
+    [.int 9, .int 9] (by decide)
+
+/-- nil is accepted for an id field (`continue` at serializer.go:69-71 precedes every type check):
+    `[33, null, 2]` is a SUBSCRIBED with request id 0, although `StrictCompatible` (the WAMP
+    reading) refuses nil for an id.  Replayed on the implementation.  The same holds for URI fields
+    (`[32, 1, {}, null]` is a SUBSCRIBE with the empty topic). -/
+theorem C14_nil_for_id_accepted :
+    (match fromList .json [.int 33, .null, .int 2] with
+      | .ok m => m.schema.name == "Subscribed" && StrictAll m.schema.fields [.null, .int 2] == false &&
+          (match m.fields with | [.int 0, .int 2] => true | _ => false)
+      | _ => false) = true
+    ∧ (match fromList .json [.int 32, .int 1, .dict [], .null] with
+      | .ok m => m.schema.name == "Subscribe" && StrictAll m.schema.fields [.int 1, .dict [], .null] == false &&
+          (match m.fields with | [.int 1, .dict [], .str []] => true | _ => false)
+      | _ => false) = true := by
+  constructor <;> decide +kernel
+
 /-! ## Layer b: wire formats -/
 
 /-- **MessagePack round trip** for every value of the data model (integers in int64 ∪ uint64,
@@ -682,10 +883,13 @@ theorem C14_cross_format (v : CVal) (hv : validB MsgPack.maxLen v = true) :
   simp at h1 h2
   exact ⟨h1.trans h2.symm, h1⟩
 
-/-- **JSON round trip** for the fragment null / bool / integer (int64 ∪ uint64) / string (any byte
-    string; the codec's escapes) / list / dict of any nesting depth.  `rest` must not continue a
+/-- **JSON round trip** for the fragment null / bool / integer (int64 ∪ uint64) / string (any
+    valid UTF-8 byte string — `Json.utf8OkB`, Go's `utf8.Valid`; the codec's escapes) / list / dict
+    (keys valid UTF-8) of any nesting depth.  `rest` must not continue a
     number token (it is empty, or starts with anything but a digit + - . e E).  Floats and
-    binaries are outside the fragment (see the header of Nexus/Codec/Json.lean). -/
+    binaries are outside the fragment (see the header of Nexus/Codec/Json.lean); so are strings
+    that are not valid UTF-8: the codec replaces each offending byte by U+FFFD
+    (`C14_json_roundtrip_nonutf8_fails`). -/
 theorem C14_json_roundtrip (v : CVal) (rest : Bytes) (hv : Json.okB v = true) (hr : Json.NumSafe rest) :
     Json.dec (Json.enc v ++ rest) = .ok (v, rest) :=
   Json.dec_enc v rest hv hr
@@ -763,6 +967,270 @@ theorem C14_toplevel_map_rejected :
     ∧ notList (Wire.deserialize .cbor [0xa1, 0x61, 0x61, 0x01]) = true
     ∧ notList (Wire.deserialize .json [0x7b, 0x22, 0x61, 0x22, 0x3a, 0x31, 0x7d]) = true := by
   decide +kernel
+
+/-! ## JSON strings and UTF-8 (audit C14-c1) -/
+
+/-- **JSON round trip of the bytes the codec really writes.**  `Json.encReal` is `Json.enc` with
+    the string writer of ugorji/go/codec v1.3.1 (`quoteStr`, json.go:399-470: `\uFFFD` for every
+    byte that `utf8.DecodeRuneInString` rejects).  On the fragment `Json.okB` — which demands valid
+    UTF-8 of every string and key — it equals `Json.enc` (`Json.encReal_eq_enc_of_okB`), hence
+    round-trips.  Clause "deserialising the serialised form yields an equal message for JSON". -/
+theorem C14_json_roundtrip_real (v : CVal) (rest : Bytes) (hv : Json.okB v = true) (hr : Json.NumSafe rest) :
+    Json.encReal v = Json.enc v ∧ Json.dec (Json.encReal v ++ rest) = .ok (v, rest) :=
+  ⟨Json.encReal_eq_enc_of_okB v hv, Json.dec_encReal v rest hv hr⟩
+
+/-- The hypotheses of `C14_json_roundtrip_real` hold of a nested value with a two-byte, a
+    three-byte and a four-byte character ("é", "€", U+1F600) and a non-ASCII key. -/
+example : Json.okB (.list [.str [0xC3, 0xA9], .dict [([0xE2, 0x82, 0xAC], .str [0xF0, 0x9F, 0x98, 0x80])], .int (-5)]) = true
+    ∧ Json.NumSafe [0x5d] := by
+  refine ⟨by decide, ?_⟩
+  intro b r h; cases h; decide
+
+/-- **Message round trip through the codec's real JSON bytes**: the JSON branch of
+    `C14_wire_roundtrip` with `Json.encReal` (what `JSONSerializer.Serialize` emits) in place of
+    the model encoder. -/
+theorem C14_wire_roundtrip_json_real (m : Msg) (h : WellTyped m) :
+    ∃ l, msgToList m = .ok l
+      ∧ (Json.okB (.list l) = true →
+          Wire.deserialize .json (Json.encReal (.list l)) = .ok (.ok (norm m))) := by
+  obtain ⟨l, h1, _, _, h4⟩ := C14_wire_roundtrip m h
+  exact ⟨l, h1, fun hv => by rw [Json.encReal_eq_enc_of_okB _ hv]; exact h4 hv⟩
+
+/-- The hypotheses are met by a PUBLISH to the topic "café" (63 61 66 C3 A9) with one argument. -/
+example :
+    let pub : Msg := { schema := (Gen.structs.filter (·.code == 16)).head!,
+                       fields := [.int 1, .dict [], .str [0x63, 0x61, 0x66, 0xC3, 0xA9], .list [.int 7], .null] }
+    WellTyped pub ∧ msgToList pub = .ok [.int 16, .int 1, .dict [], .str [0x63, 0x61, 0x66, 0xC3, 0xA9], .list [.int 7]]
+      ∧ Json.okB (.list [.int 16, .int 1, .dict [], .str [0x63, 0x61, 0x66, 0xC3, 0xA9], .list [.int 7]]) = true := by
+  exact ⟨⟨by decide, ⟨by decide, by decide⟩, trivial, trivial, trivial, trivial, trivial⟩, by rfl, by decide⟩
+
+/-- Full-strength statement the property text suggests ("strings"): every Go string survives the
+    codec's JSON. -/
+def C14_json_roundtrip_anystring : Prop :=
+  ∀ (s : Bytes), Json.dec (Json.encReal (.str s)) = .ok (.str s, [])
+
+/-- It is false, of the model of the real codec and of the implementation alike (replayed:
+    `JSONSerializer.SerializeDataItem("a\x80b")` = `"a\uFFFDb"`, which deserialises to
+    "a\xef\xbf\xbdb"): the byte 0x80 is not valid UTF-8 and comes back as U+FFFD. -/
+theorem C14_json_roundtrip_nonutf8_fails : ¬ C14_json_roundtrip_anystring := by
+  intro h
+  have h1 := h [0x61, 0x80, 0x62]
+  rw [Json.dec_encReal_a80b] at h1
+  injection h1 with h1
+  injection h1 with h1 _
+  injection h1 with h1
+  exact absurd h1 (by decide)
+
+/-- **What JSON hands back for an arbitrary Go string, and exactly which strings survive**: the
+    real writer followed by the decoder yields `Json.sanitize s` — every byte that does not start
+    a valid UTF-8 encoding replaced by U+FFFD, i.e. Go's `string([]rune(s))` —, and that is `s`
+    itself iff `s` is valid UTF-8.  So the condition `Json.utf8OkB` in the fragment is necessary as
+    well as sufficient (for strings; audit c1/d1 "or model the substitution"). -/
+theorem C14_json_string_roundtrip_iff (s rest : Bytes) :
+    Json.dec (Json.encReal (.str s) ++ rest) = .ok (.str (Json.sanitize s), rest)
+    ∧ (Json.dec (Json.encReal (.str s)) = .ok (.str s, []) ↔ Json.utf8OkB s = true) :=
+  ⟨Json.dec_encReal_str s rest, Json.dec_encReal_str_iff s⟩
+
+/-- **The formats do not "decode each other's meaning identically" on such a string**: MessagePack
+    and CBOR hand the Go string "a\x80b" back unchanged (the codec does not validate their
+    strings), JSON hands back "a\uFFFDb".  A router relaying a msgpack client's PUBLISH to a JSON
+    subscriber alters the string. -/
+theorem C14_nonutf8_formats_disagree :
+    MsgPack.dec (MsgPack.enc (.str [0x61, 0x80, 0x62])) = .ok (.str [0x61, 0x80, 0x62], [])
+    ∧ CBOR.dec (CBOR.enc (.str [0x61, 0x80, 0x62])) = .ok (.str [0x61, 0x80, 0x62], [])
+    ∧ Json.dec (Json.encReal (.str [0x61, 0x80, 0x62])) = .ok (.str [0x61, 0xEF, 0xBF, 0xBD, 0x62], []) := by
+  refine ⟨?_, ?_, Json.dec_encReal_a80b⟩
+  · simpa using MsgPack.dec_enc (.str [0x61, 0x80, 0x62]) [] (by decide)
+  · simpa using CBOR.dec_enc (.str [0x61, 0x80, 0x62]) [] (by decide)
+
+/-- The same at message level: PUBLISH [16, 1, {}, "a\x80b"] serialised by the real JSON writer
+    deserialises to a PUBLISH whose Topic is "a\uFFFDb" (61 EF BF BD 62) — replayed on the
+    implementation (`Serialize` gives `[16,1,{},"a\uFFFDb"]`). -/
+theorem C14_wire_nonutf8_witness :
+    (match Wire.deserialize .json (Json.encReal (.list [.int 16, .int 1, .dict [], .str [0x61, 0x80, 0x62]])) with
+      | .ok (.ok m) => m.schema.name == "Publish" &&
+          (match m.fields with
+           | [.int 1, .dict [], .str s, .null, .null] => s == [0x61, 0xEF, 0xBF, 0xBD, 0x62]
+           | _ => false)
+      | _ => false) = true := by decide +kernel
+
+/-! ## When `Deserialize` answers, and with what (audit C14-d8, a6) -/
+
+/-- **Exactly when `Deserialize` gets past the codec, and what it then answers**: the model of
+    `Deserialize` returns `r` (a message or one of the repo's errors) iff either the bytes decode to
+    a list `l` (followed by anything) and `r` is what `fromList` makes of `l`, or they decode to a
+    value that is not a list and `r` is the error "invalid message: not a list".  (Audit b: the
+    theorem `C14_rejects_nonlist` did not say `r = fromList fmt l`.) -/
+theorem C14_deserialize_ok_iff (fmt : Format) (b : Bytes) (r : Res Msg) :
+    Wire.deserialize fmt b = .ok r ↔
+      (∃ l rest, Wire.decode fmt b = .ok (.list l, rest) ∧ r = fromList fmt l)
+      ∨ (∃ v rest, Wire.decode fmt b = .ok (v, rest) ∧ (∀ l, v ≠ .list l) ∧ r = .error .notAList) := by
+  unfold Wire.deserialize
+  rw [C14_decodeList_everywhere]
+  cases hd : Wire.decode fmt b with
+  | error e => simp
+  | ok p =>
+    obtain ⟨v, rest⟩ := p
+    cases v <;> simp [eq_comm]
+
+/-- The codec's verdict is passed on unchanged: `Deserialize` fails with the codec's error exactly
+    when decoding the first value fails. -/
+theorem C14_deserialize_error_iff (fmt : Format) (b : Bytes) (e : DErr) :
+    Wire.deserialize fmt b = .error e ↔ Wire.decode fmt b = .error e := by
+  unfold Wire.deserialize
+  rw [C14_decodeList_everywhere]
+  cases hd : Wire.decode fmt b with
+  | error e' => simp
+  | ok p =>
+    obtain ⟨v, rest⟩ := p
+    cases v <;> simp
+
+/-- **A message comes out exactly when** the bytes decode to a list that `fromList` accepts, and it
+    is that message. -/
+theorem C14_deserialize_msg_iff (fmt : Format) (b : Bytes) (m : Msg) :
+    Wire.deserialize fmt b = .ok (.ok m) ↔
+      ∃ l rest, Wire.decode fmt b = .ok (.list l, rest) ∧ fromList fmt l = .ok m := by
+  rw [C14_deserialize_ok_iff]
+  constructor
+  · rintro (⟨l, rest, hd, hr⟩ | ⟨_, _, _, _, hr⟩)
+    · exact ⟨l, rest, hd, hr.symm⟩
+    · cases hr
+  · rintro ⟨l, rest, hd, hr⟩
+    exact Or.inl ⟨l, rest, hd, hr.symm⟩
+
+/-- The three statements are about something: `[33,1,2]` in JSON is a SUBSCRIBED, `{"a":1}` is
+    "not a list", `[` is a codec error. -/
+example :
+    (∃ m, Wire.deserialize .json [0x5b, 0x33, 0x33, 0x2c, 0x31, 0x2c, 0x32, 0x5d] = .ok (.ok m))
+    ∧ Wire.deserialize .json [0x7b, 0x22, 0x61, 0x22, 0x3a, 0x31, 0x7d] = .ok (.error .notAList)
+    ∧ Wire.deserialize .json [0x5b] = .error .malformed := by
+  refine ⟨?_, by rfl, by rfl⟩
+  cases h : Wire.deserialize .json [0x5b, 0x33, 0x33, 0x2c, 0x31, 0x2c, 0x32, 0x5d] with
+  | error e =>
+    have : (match Wire.deserialize .json [0x5b, 0x33, 0x33, 0x2c, 0x31, 0x2c, 0x32, 0x5d] with
+      | .ok (.ok _) => true | _ => false) = true := by decide +kernel
+    simp [h] at this
+  | ok r =>
+    cases r with
+    | ok m => exact ⟨m, rfl⟩
+    | error e =>
+      have : (match Wire.deserialize .json [0x5b, 0x33, 0x33, 0x2c, 0x31, 0x2c, 0x32, 0x5d] with
+        | .ok (.ok _) => true | _ => false) = true := by decide +kernel
+      simp [h] at this
+    | panic s =>
+      have : (match Wire.deserialize .json [0x5b, 0x33, 0x33, 0x2c, 0x31, 0x2c, 0x32, 0x5d] with
+        | .ok (.ok _) => true | _ => false) = true := by decide +kernel
+      simp [h] at this
+
+private theorem structs_view_in_layout : ∀ s ∈ Gen.structs, viewOf s ∈ wireLayout := by decide
+
+private theorem newCase_struct_code :
+    ∀ c ∈ Gen.newMessage, ∀ s ∈ Gen.structs, structOf? c = some s → s.code = c.code := by decide
+
+/-- What `NewMessage` allocates for `t` is one of the generated structs, and `t` is its code. -/
+private theorem newMessage_known {t : Int} {m0 : Msg} (h : newMessage t = some m0) :
+    m0.schema ∈ Gen.structs ∧ t = (m0.schema.code : Int) := by
+  rw [newMessage_eq] at h
+  cases hc : newCase? t with
+  | none => simp [hc] at h
+  | some c =>
+    cases hs : structOf? c with
+    | none => simp [hc, hs] at h
+    | some s =>
+      simp [hc, hs] at h
+      subst h
+      have hcm : c ∈ Gen.newMessage := List.mem_of_find?_eq_some hc
+      have hct : ((c.code : Int) == t) = true := by
+        have := List.find?_some hc
+        simpa using this
+      have hsm : s ∈ Gen.structs := List.mem_of_find?_eq_some hs
+      have := newCase_struct_code c hcm s hsm hs
+      refine ⟨hsm, ?_⟩
+      simp only []
+      rw [this]
+      exact (eq_of_beq hct).symm
+
+/-- The head the format's check lets through is literally the code, provided an integer head is
+    one Go can hold (which the decoders guarantee, Nexus/Codec/WpDRange.lean; MessagePack's check
+    does not convert and needs no such fact). -/
+private theorem head_is_code {fmt : Format} {v0 : CVal} {code : Nat} (hc : code < 256)
+    (h : headType fmt v0 = .ok (code : Int))
+    (hr : fmt ≠ .msgpack → ∀ i, v0 = .int i → IntRange i) : v0 = .int code := by
+  cases v0 with
+  | int i =>
+    cases fmt with
+    | msgpack =>
+      simp only [headType] at h
+      split at h
+      · cases h; rfl
+      · cases h
+    | json =>
+      have hi := hr (by decide) i rfl
+      simp only [headType] at h
+      split at h
+      · injection h with h
+        unfold IntRange at hi
+        unfold wrapI64 two63 two64 at h
+        congr 1; omega
+      · cases h
+    | cbor =>
+      have hi := hr (by decide) i rfl
+      simp only [headType] at h
+      split at h
+      · injection h with h
+        unfold IntRange at hi
+        unfold wrapI64 two63 two64 at h
+        congr 1; omega
+      · cases h
+  | _ => cases fmt <;> simp [headType] at h
+
+/-- **Only a list starting with a known message code becomes a message — literally.**  Whenever
+    `Deserialize` yields a message, the bytes decode to a list whose first item is the integer
+    `e.code` itself for one of the 24 rows `e` of the WAMP wire layout, and the message is of that
+    row's type (struct name, field names, types, omitempty flags: `viewOf m.schema = e`).
+    Audit a6: `headType` converts the head with `wrapI64`, so at `CVal` level the integer 2^64+1
+    would pass for HELLO; the decoders never produce such an integer
+    (`Json.dec_list_head_range`, `CBOR.dec_list_head_range`: an integer head is within
+    int64 ∪ uint64; MessagePack's check does not wrap), hence no wrap-around can occur. -/
+theorem C14_accept_known_code (fmt : Format) (b : Bytes) (m : Msg)
+    (h : Wire.deserialize fmt b = .ok (.ok m)) :
+    ∃ e ∈ wireLayout, viewOf m.schema = e ∧
+      ∃ items rest, Wire.decode fmt b = .ok (.list (.int e.code :: items), rest) := by
+  obtain ⟨l, rest, hd, hf⟩ := (C14_deserialize_msg_iff fmt b m).mp h
+  cases l with
+  | nil => simp [fromList] at hf
+  | cons v0 items =>
+    cases hh : headType fmt v0 with
+    | error e => simp [fromList, hh] at hf
+    | panic s => simp [fromList, hh] at hf
+    | ok t =>
+      cases hn : newMessage t with
+      | none => simp [fromList, hh, listToMsg, hn] at hf
+      | some m0 =>
+        have hm : m.schema = m0.schema := by
+          simp [fromList, hh, listToMsg, hn] at hf
+          cases hfl : fill 1 m0.schema.fields m0.fields items with
+          | ok fs => simp [hfl, Res.map] at hf; rw [← hf]
+          | error e => simp [hfl, Res.map] at hf
+          | panic s => simp [hfl, Res.map] at hf
+        obtain ⟨hmem, ht⟩ := newMessage_known hn
+        obtain ⟨_, _, hcode⟩ := structs_facts _ hmem
+        have hv0 : v0 = .int (m0.schema.code : Int) := by
+          apply head_is_code hcode (by rw [← ht]; exact hh)
+          intro hfmt i hi
+          subst hi
+          cases fmt with
+          | msgpack => exact absurd rfl hfmt
+          | json => exact Json.dec_list_head_range (l := items) (rest := rest) hd
+          | cbor => exact CBOR.dec_list_head_range (l := items) (rest := rest) hd
+        refine ⟨viewOf m0.schema, structs_view_in_layout _ hmem, by rw [hm], items, rest, ?_⟩
+        rw [hd, hv0]
+        rfl
+
+/-- The hypothesis of `C14_accept_known_code` is met by the MessagePack bytes `93 21 01 02`
+    (SUBSCRIBED [33, 1, 2]). -/
+example : (match Wire.deserialize .msgpack [0x93, 0x21, 0x01, 0x02] with
+    | .ok (.ok m) => m.schema.name == "Subscribed" | _ => false) = true := by decide +kernel
 
 /-! ## Non-vacuity -/
 
